@@ -29,6 +29,7 @@ type Config struct {
 	Seed         int64
 	Samples      int
 	PreemptAtSync  bool // explore goroutine switches at lock acquisitions
+	RaceMaps       bool // report map accesses by different goroutines that are not ordered by happens-before
 	MaxPreemptions int
 	BudgetS      float64 // wall-clock budget per harness (0: none); exceeding it truncates
 	Progress     bool
@@ -74,6 +75,8 @@ type Violation struct {
 	Trace    []int32  `json:"decisions"`
 	Observed []string `json:"observations,omitempty"`
 	Sched    bool     `json:"schedule_dependent,omitempty"` // the path took a goroutine preemption decision
+	// kind "race": the functions of the two conflicting accesses, in the race detector's naming
+	RaceFuncs []string `json:"race_funcs,omitempty"`
 }
 
 type Outcome struct {
@@ -351,6 +354,9 @@ func (m *Machine) resetPath() {
 	m.wgs = map[*Value]*wgState{}
 	m.onces = map[*Value]*onceState{}
 	m.pools = map[*Value]*[]Value{}
+	m.syncVCs = map[any]*vclock{}
+	m.mapRaces = map[*Map]*mapRaceState{}
+	m.raceReported = false
 	m.instrs = 0
 	m.callDepth = 0
 	m.opaqueN = 0
@@ -377,6 +383,7 @@ func (m *Machine) runPath(e *Explorer, w workItem) {
 
 	g := &gor{id: 0, wake: make(chan struct{}, 1), runnable: true, fn: e.Fn.String()}
 	m.gors = append(m.gors, g)
+	g.tick()
 	m.cur = g
 	var vt Value = m.zero(deref(e.Fn.Params[0].Type()))
 	arg := &vt
